@@ -67,7 +67,7 @@ class C01(Profile):
             rng, engines=["it", "it2"] if rng.random() < 0.5 else ["it"],
             weights={**UNARY_W, "chain": 2, "mat": 1, "xfer": 1, "leaf": 1, "run": 2, "reuse_mat": 0.6,
                      "cursor_open": 1.5, "pull": 3, "abandon": 0.4, "custom": 1.5, "process": 0.4,
-                     "flag_on_processed": 0.4, "redeclared_twin": 0.6, "ephemeral": 1.0, "mark": 0.8},
+                     "flag_on_processed": 0.4, "redeclared_twin": 0.6, "ephemeral": 1.0, "mark": 0.8, "guarded": 0.8},
             max_ops=16 if big else 10, udf_p=0.08, special_leaf_p=0.06, pipeline_p=0.3, flags_p=0.1, redeclare_p=0.12,
             bounds=("exact", "exact", "loose", "zeromin", "unbounded"),
         )
@@ -246,7 +246,7 @@ class C04(C03):
 
 class C05(Profile):
     prop = "C05"
-    claims = {k: "C05" for k in ("merge_semantics", "merge_exception", "rows_mismatch")}
+    claims = {k: "C05" for k in ("merge_semantics", "merge_exception", "rows_mismatch", "exec_exception")}
     eval_new = True
     dn_rule = ("single-engine histories (iteration or SQL) skewed to adjacent same-kind operations, do-nothing operations, "
                "empty windows and windows beyond the upstream window; on every entry the library tree is read by the tree "
@@ -259,7 +259,7 @@ class C05(Profile):
         self.new_entry_hooks = (oracles.tree_semantics,)
 
     def claim(self, kind, entry, run, v):
-        if kind == "rows_mismatch":
+        if kind in ("rows_mismatch", "exec_exception"):
             if entry is None or not any(k.startswith(("merge:", "then:")) for k in entry.events):
                 return None
         return self.claims.get(kind)
@@ -269,7 +269,7 @@ class C05(Profile):
         eng = rng.choice(["it", "sql"])
         g = Gen(rng, engines=[eng],
                 weights={"calc": 2, "proj": 3, "sel": 3, "dedup": 1, "sort": 3, "slice": 4, "chain": 0.5, "leaf": 0.5,
-                         "custom": 2 if eng == "it" else 0},
+                         "custom": 2 if eng == "it" else 0, "guarded": 1.5 if eng == "it" else 0},
                 max_ops=14 if big else 9, nleaves=(1, 2), adjacent_p=0.6, total_sort_p=0.3, pipeline_p=0.3, stride_order_only=True,
                 udf_p=0.04)
         return {"config": swarm_config(rng), "ops": g.build()}
